@@ -22,6 +22,7 @@ structure Store where
   next : Option Nat := none             -- index the open file expects next (`none`: no log file yet)
   lastTerm : Nat := 0
   prePtr : Option (Nat × Nat) := none   -- `pre_ready_snapshot_pointer` (not persisted)
+  hs : Nat × Nat := (0, 0)              -- `save_hard_state`: current term, voted for (0 = nobody); what `get_initial_state` reports
   deriving Repr
 
 def mkEnts (i t n len seed : Nat) : List Ent :=
